@@ -62,6 +62,7 @@ class Rig:
 
         class InstrOSUtils(OSUtils):
             def rename_file(self, a, b):
+                rig.yield_point('rename')
                 rig.log('rename', os.path.basename(b))
                 if b in rig.rename_fail:
                     raise RenameFault('injected rename failure')
@@ -133,6 +134,7 @@ class Rig:
 
             def on_done(self, future, **kw):
                 rig.log('subs', self.idx)
+                rig.yield_point('subscriber-on_done')      # user callbacks take time
         self.Sub = Sub
         if sched_shims is not None:
             shims = sched_shims
@@ -172,6 +174,10 @@ class Rig:
         for mod, name, val in self._saved:
             setattr(mod, name, val)
         shutil.rmtree(self.dir, ignore_errors=True)
+
+    def yield_point(self, label):
+        if self.sh is not None:
+            self.sh.sched.point(label)
 
     def log(self, kind, detail=None):
         seq = self.sh.sched.tick() if self.sh is not None else len(self.events)
@@ -505,7 +511,7 @@ def _model_lines(sc, out):
 def sched_corr(seed, tier):
     res = CorrResult('crt-sched')
     rng = rng_for(seed, 'crt-sched')
-    n = 60 if tier == 'quick' else 1200
+    n = 300 if tier == 'quick' else 5000
     batch = []
     for _ in range(n):
         sc = _gen_scenario(rng, tier)
@@ -582,7 +588,7 @@ def _model_lines_with_nofile(sc, out):
 def oracle(seed, tier):
     res = OracleResult('C20')
     rng = rng_for(seed, 'crt-oracle')
-    n = 80 if tier == 'quick' else 3000
+    n = 1200 if tier == 'quick' else 20000
     for _ in range(n):
         sc = _gen_scenario(rng, tier)
         out = run_scenario(sc)
